@@ -54,7 +54,7 @@ def cases(ctx):
 def run_case(case, ctx):
     import circuitgraph as cg
 
-    c = build(case["c"])
+    c = build(case["c"], case.get("ord"))
     exc, t, mp = "", None, {}
     try:
         t, mp = cg.tx.ternary(c)
